@@ -32,6 +32,9 @@ package main
 //   lf_dyncalls       calls through function values made by lock-free functions
 //   lf_ext_pkgs       packages outside the analysed set that lock-free functions call into
 //   lk_written_lf_read  shared fields written by a locked function and read by a lock-free one
+//   lk_field_writes     for those fields, per writing locked function: where the written object comes from
+//                       (fresh | fresh-call | fresh-elem | param | var | other:...)
+//   fresh_returning     the functions whose first result is always an object they (transitively) created
 //
 // Function names: pkg.Func, pkg.Type.Method; a function literal belongs to the function
 // that contains it; package-level initialisers belong to pkg.<init>.
@@ -118,6 +121,8 @@ type census struct {
 	shared   map[string]bool            // shared named types (pkg.Type)
 	extTypes map[string]bool
 	goStmts  map[string]bool            // functions that start a goroutine
+	fieldW   map[[3]string]bool         // (function, field, class of the object written to)
+	freshFn  map[string]bool            // functions whose first result is always an object they created
 }
 
 func shortName(p *types.Package) string {
@@ -157,7 +162,7 @@ func loadCensus(repo string) (*census, error) {
 		fnDecl: map[string]*ast.FuncDecl{}, fnPkg: map[string]*apkg{}, fieldName: map[*types.Var]string{}, genVar: map[*types.Var]bool{},
 		edges: map[string]map[string]bool{}, dyn: map[string]map[string]bool{}, ext: map[string]map[string]bool{},
 		writes: map[[3]string]bool{}, fwrites: map[string]map[string]bool{}, freads: map[string]map[string]bool{},
-		shared: map[string]bool{}, extTypes: map[string]bool{}, goStmts: map[string]bool{}}
+		shared: map[string]bool{}, extTypes: map[string]bool{}, goStmts: map[string]bool{}, fieldW: map[[3]string]bool{}, freshFn: map[string]bool{}}
 	lookup := func(path string) (io.ReadCloser, error) {
 		f, ok := exports[path]
 		if !ok || f == "" {
@@ -518,6 +523,7 @@ func (c *census) scanBody(a *apkg, fn string, body ast.Node) {
 				}
 				add(c.fwrites, fn, name)
 				record("field:"+name, kind)
+				c.fieldW[[3]string{fn, name, c.baseClass(a, fn, body, x.X)}] = true
 				return
 			}
 			// qualified identifier pkg.Var
@@ -672,6 +678,269 @@ func (c *census) scanBody(a *apkg, fn string, body ast.Node) {
 		}
 		return true
 	})
+}
+
+// ---- where does the object whose field is written come from ------------------------------
+// fresh        created in this function (composite literal, &composite literal, new)
+// fresh-call   first result of a function that only ever returns objects it created (freshFn)
+// fresh-elem   element of a map/slice that this function made and filled
+// param / var / other:<what>   anything else: it may have been published before
+
+func stripBase(e ast.Expr) ast.Expr {
+	for {
+		switch x := e.(type) {
+		case *ast.ParenExpr:
+			e = x.X
+		case *ast.SelectorExpr:
+			e = x.X
+		case *ast.IndexExpr:
+			e = x.X
+		case *ast.StarExpr:
+			e = x.X
+		case *ast.TypeAssertExpr:
+			e = x.X
+		default:
+			return e
+		}
+	}
+}
+
+func worse(a, b string) string {
+	rank := func(s string) int {
+		switch s {
+		case "fresh":
+			return 0
+		case "fresh-call":
+			return 1
+		case "fresh-elem":
+			return 2
+		}
+		return 3
+	}
+	if rank(b) > rank(a) {
+		return b
+	}
+	return a
+}
+
+// exprClass classifies the value of an expression (no field/index stripping)
+func (c *census) exprClass(a *apkg, fn string, body ast.Node, e ast.Expr, depth int) string {
+	info := a.info
+	for {
+		p, ok := e.(*ast.ParenExpr)
+		if !ok {
+			break
+		}
+		e = p.X
+	}
+	switch x := e.(type) {
+	case *ast.CompositeLit:
+		return "fresh"
+	case *ast.UnaryExpr:
+		if _, ok := x.X.(*ast.CompositeLit); ok && x.Op == token.AND {
+			return "fresh"
+		}
+	case *ast.CallExpr:
+		if id, ok := x.Fun.(*ast.Ident); ok {
+			if _, b := info.Uses[id].(*types.Builtin); b && (id.Name == "new" || id.Name == "make") {
+				return "fresh"
+			}
+		}
+		var callee types.Object
+		switch f := x.Fun.(type) {
+		case *ast.Ident:
+			callee = info.Uses[f]
+		case *ast.SelectorExpr:
+			callee = info.Uses[f.Sel]
+		}
+		if cf, ok := callee.(*types.Func); ok {
+			if k, ok := c.keyOf(cf); ok && c.freshFn[k] {
+				return "fresh-call"
+			}
+			return "other:result of " + cf.Name()
+		}
+		return "other:call"
+	case *ast.IndexExpr:
+		// element of a container this function made
+		if id, ok := x.X.(*ast.Ident); ok {
+			if v, ok := info.Uses[id].(*types.Var); ok && freshLocal(info, c.fnBody(fn, body), v) {
+				return "fresh-elem"
+			}
+		}
+		return "other:element"
+	case *ast.Ident:
+		if x.Name == "nil" {
+			return "fresh"
+		}
+		if v, ok := info.Uses[x].(*types.Var); ok {
+			return c.varClass(a, fn, body, v, depth)
+		}
+	}
+	return "other:expression"
+}
+
+// varClass classifies a variable by all its definitions in the function
+func (c *census) varClass(a *apkg, fn string, body ast.Node, v *types.Var, depth int) string {
+	info := a.info
+	if v.IsField() {
+		return "other:field"
+	}
+	if v.Pkg() != nil && v.Parent() == v.Pkg().Scope() {
+		return "var"
+	}
+	if c.isParam(fn, body, v) {
+		return "param"
+	}
+	if d, ok := c.fnDecl[fn]; ok && d.Recv != nil && d.Recv.Pos() <= v.Pos() && v.Pos() < d.Recv.End() {
+		return "param"
+	}
+	if depth > 4 {
+		return "other:deep"
+	}
+	cls, defs := "fresh", 0
+	isSelf := func(e ast.Expr) bool {
+		id, ok := e.(*ast.Ident)
+		return ok && info.Uses[id] == v
+	}
+	// v = append(v, x...) keeps what v was and adds the x; v = v[i:j] keeps what v was
+	rhsClass := func(e ast.Expr) string {
+		switch x := e.(type) {
+		case *ast.CallExpr:
+			if id, ok := x.Fun.(*ast.Ident); ok && id.Name == "append" && len(x.Args) > 0 && isSelf(x.Args[0]) {
+				if _, b := info.Uses[id].(*types.Builtin); b {
+					out := "fresh"
+					for _, arg := range x.Args[1:] {
+						out = worse(out, c.exprClass(a, fn, body, arg, depth+1))
+					}
+					if out == "fresh" || out == "fresh-call" {
+						return "fresh-elem"
+					}
+					return out
+				}
+			}
+		case *ast.SliceExpr:
+			if isSelf(x.X) {
+				return "fresh"
+			}
+		}
+		return c.exprClass(a, fn, body, e, depth+1)
+	}
+	ast.Inspect(c.fnBody(fn, body), func(n ast.Node) bool {
+		switch x := n.(type) {
+		case *ast.AssignStmt:
+			for i, l := range x.Lhs {
+				id, ok := l.(*ast.Ident)
+				if !ok {
+					continue
+				}
+				obj := info.Defs[id]
+				if obj == nil {
+					obj = info.Uses[id]
+				}
+				if obj != v {
+					continue
+				}
+				defs++
+				switch {
+				case len(x.Rhs) == len(x.Lhs):
+					cls = worse(cls, rhsClass(x.Rhs[i]))
+				case len(x.Rhs) == 1 && i == 0:
+					// v, ok := m[k]  /  v, err := f(...): the first value
+					cls = worse(cls, c.exprClass(a, fn, body, x.Rhs[0], depth+1))
+				default:
+					cls = worse(cls, "other:multi-value")
+				}
+			}
+		case *ast.ValueSpec:
+			for i, id := range x.Names {
+				if info.Defs[id] != v {
+					continue
+				}
+				defs++
+				if i < len(x.Values) {
+					cls = worse(cls, c.exprClass(a, fn, body, x.Values[i], depth+1))
+				}
+			}
+		case *ast.RangeStmt:
+			for k, e := range []ast.Expr{x.Key, x.Value} {
+				id, ok := e.(*ast.Ident)
+				if !ok || (info.Defs[id] != v && info.Uses[id] != v) {
+					continue
+				}
+				defs++
+				if k == 1 {
+					// the elements of a container this function made
+					if cid, ok := x.X.(*ast.Ident); ok {
+						if cv, ok := info.Uses[cid].(*types.Var); ok && freshLocal(info, c.fnBody(fn, body), cv) {
+							cls = worse(cls, "fresh-elem")
+							continue
+						}
+					}
+					cls = worse(cls, "other:range")
+				}
+			}
+		}
+		return true
+	})
+	if defs == 0 {
+		return "other:undefined"
+	}
+	return cls
+}
+
+func (c *census) baseClass(a *apkg, fn string, body ast.Node, e ast.Expr) string {
+	root := stripBase(e)
+	switch x := root.(type) {
+	case *ast.Ident:
+		if v, ok := a.info.Uses[x].(*types.Var); ok {
+			return c.varClass(a, fn, body, v, 0)
+		}
+		return "other:ident"
+	default:
+		return c.exprClass(a, fn, body, root, 0)
+	}
+}
+
+// computeFresh: the functions whose first result is, at every return, an object created by the
+// function itself or by such a function (least fixed point)
+func (c *census) computeFresh() {
+	for changed := true; changed; {
+		changed = false
+		for _, key := range c.fnOrder {
+			if c.freshFn[key] {
+				continue
+			}
+			d := c.fnDecl[key]
+			a := c.fnPkg[key]
+			if d.Body == nil || d.Type.Results == nil || len(d.Type.Results.List) == 0 {
+				continue
+			}
+			ok, nret := true, 0
+			var walk func(n ast.Node) bool
+			walk = func(n ast.Node) bool {
+				switch x := n.(type) {
+				case *ast.FuncLit:
+					return false
+				case *ast.ReturnStmt:
+					nret++
+					if len(x.Results) == 0 {
+						ok = false
+						return false
+					}
+					cl := c.exprClass(a, key, d.Body, x.Results[0], 0)
+					if strings.HasPrefix(cl, "other") || cl == "param" || cl == "var" {
+						ok = false
+					}
+				}
+				return true
+			}
+			ast.Inspect(d.Body, walk)
+			if ok && nret > 0 {
+				c.freshFn[key] = true
+				changed = true
+			}
+		}
+	}
 }
 
 // isParam: is v declared in the parameter list of the function (or of a function literal inside it)
@@ -912,6 +1181,7 @@ func genConcState(repo string) (string, error) {
 		return "", err
 	}
 	c.index()
+	c.computeFresh()
 	c.scanAll()
 
 	var sb strings.Builder
@@ -936,7 +1206,9 @@ func genConcState(repo string) (string, error) {
 				continue
 			}
 			b := "false"
-			if mutableKind(v.Type(), map[types.Type]bool{}) {
+			// a variable of the predeclared type error holds an immutable value (errors.New, fmt.Errorf);
+			// that it is never assigned again is checked with all the others (vars_only_initialised)
+			if mutableKind(v.Type(), map[types.Type]bool{}) && !types.Identical(v.Type(), types.Universe.Lookup("error").Type()) {
 				b = "true"
 			}
 			vars = append(vars, [3]string{a.short + "." + name, c.typeStr(v.Type()), b})
@@ -1075,6 +1347,24 @@ func genConcState(repo string) (string, error) {
 		}
 	}
 	fmt.Fprintf(&sb, "Definition lk_written_lf_read : list string := %s.\n", coqList(sortedKeys(both)))
+	// where the objects come from whose (lock-free readable) fields locked functions write
+	var fw [][3]string
+	for w := range c.fieldW {
+		if lk[w[0]] && both[w[1]] {
+			fw = append(fw, w)
+		}
+	}
+	sort.Slice(fw, func(i, j int) bool {
+		for k := 0; k < 3; k++ {
+			if fw[i][k] != fw[j][k] {
+				return fw[i][k] < fw[j][k]
+			}
+		}
+		return false
+	})
+	fmt.Fprintf(&sb, "(* (locked function, field that lock-free functions read, origin of the object written to) *)\n")
+	fmt.Fprintf(&sb, "Definition lk_field_writes : list (string * string * string) := %s.\n", coqTriples(fw, false))
+	fmt.Fprintf(&sb, "Definition fresh_returning : list string := %s.\n", coqList(sortedKeys(c.freshFn)))
 	// shared fields that lock-free functions read at all
 	var lfReads []string
 	for f := range lfR {
